@@ -69,11 +69,21 @@ pub fn reformat_range_in_chunk(
     let source_indent_prefix = line_indent_prefix(source_text, selected_range.start());
     let target_indent_prefix =
         target_indent_prefix(chunk.syntax(), source_text, selected_range, config);
-    let dedented = strip_base_indent(fragment, &source_indent_prefix);
+    // Lines that start inside a multi-line token (long string, string with an escaped newline, long
+    // comment) are part of that token: they must be neither dedented nor re-indented.
+    let dedented = strip_base_indent(
+        fragment,
+        &source_indent_prefix,
+        &line_starts_inside_tokens(fragment, level),
+    );
     let mut fragment_config = config.clone();
     fragment_config.output.insert_final_newline = fragment.ends_with('\n');
     let formatted = format_fragment(&dedented, level, &fragment_config)?;
-    let text = apply_base_indent(&formatted, &target_indent_prefix);
+    let text = apply_base_indent(
+        &formatted,
+        &target_indent_prefix,
+        &line_starts_inside_tokens(&formatted, level),
+    );
 
     Some(RangeFormatOutput {
         replace_range: selected_range,
@@ -412,8 +422,35 @@ fn contains_offset(range: TextRange, offset: TextSize) -> bool {
     range.start() <= offset && offset < range.end()
 }
 
-fn strip_base_indent(text: &str, indent_prefix: &str) -> String {
-    map_lines(text, |content, newline| {
+/// Byte offsets of line starts that lie inside a token spanning several lines.
+fn line_starts_inside_tokens(text: &str, level: LuaLanguageLevel) -> Vec<usize> {
+    let tree = LuaParser::parse(text, ParserConfig::with_level(level));
+    let mut starts = Vec::new();
+    for element in tree.get_red_root().descendants_with_tokens() {
+        let Some(token) = element.into_token() else {
+            continue;
+        };
+        if matches!(
+            token.kind().to_token(),
+            emmylua_parser::LuaTokenKind::TkEndOfLine | emmylua_parser::LuaTokenKind::TkWhitespace
+        ) {
+            continue;
+        }
+        let token_start = usize::from(token.text_range().start());
+        for (index, byte) in token.text().bytes().enumerate() {
+            if byte == b'\n' && index + 1 < token.text().len() {
+                starts.push(token_start + index + 1);
+            }
+        }
+    }
+    starts
+}
+
+fn strip_base_indent(text: &str, indent_prefix: &str, protected: &[usize]) -> String {
+    map_lines(text, |start, content, newline| {
+        if protected.contains(&start) {
+            return format!("{content}{newline}");
+        }
         let stripped = content.strip_prefix(indent_prefix).unwrap_or(content);
         let mut line = String::with_capacity(stripped.len() + newline.len());
         line.push_str(stripped);
@@ -422,14 +459,17 @@ fn strip_base_indent(text: &str, indent_prefix: &str) -> String {
     })
 }
 
-fn apply_base_indent(text: &str, indent_prefix: &str) -> String {
+fn apply_base_indent(text: &str, indent_prefix: &str, protected: &[usize]) -> String {
     if indent_prefix.is_empty() {
         return text.to_string();
     }
 
-    map_lines(text, |content, newline| {
+    map_lines(text, |start, content, newline| {
         if content.is_empty() {
             return newline.to_string();
+        }
+        if protected.contains(&start) {
+            return format!("{content}{newline}");
         }
 
         let mut line = String::with_capacity(indent_prefix.len() + content.len() + newline.len());
@@ -440,11 +480,13 @@ fn apply_base_indent(text: &str, indent_prefix: &str) -> String {
     })
 }
 
-fn map_lines(text: &str, mut map: impl FnMut(&str, &str) -> String) -> String {
+fn map_lines(text: &str, mut map: impl FnMut(usize, &str, &str) -> String) -> String {
     let mut result = String::new();
+    let mut start = 0;
     for line in text.split_inclusive('\n') {
         let (content, newline) = split_line_ending(line);
-        result.push_str(&map(content, newline));
+        result.push_str(&map(start, content, newline));
+        start += line.len();
     }
 
     result
